@@ -1139,6 +1139,78 @@ fn c10(_tier: &str, seed: u64) -> Report {
     rep
 }
 
+// ------------------------------------------------------------------------------------------ C14
+fn c14(_tier: &str, seed: u64) -> Report {
+    use crate::laws::iupac_set;
+    use bio_seq::translation::{PartialTranslationTable, TranslationError, TranslationTable, STANDARD};
+    let mut rep = Report::new("C14", "EXHAUSTIVE on the real code (finite domain): all 16^3 IUPAC codons (no panic; 15^3 gap-free ones for soundness/completeness against all their concrete DNA codons), each also as a slice at symbol offsets 1 and 15; lengths 0,1,2,4,5; all 21 amino symbols for reverse translation against all 15^3 gap-free patterns");
+    rep.functions = vec!["STANDARD.try_to_amino / try_to_codon on the real statics (cross-check of rules R15/R16: the OnceLock tables hold the rows written in the source, iupac! literals parse as written)"];
+    let mut rng = Rng::new(seed);
+    let masks = |r: usize| iupac_set(<Iupac as Oracle>::entry(r).ch);
+    let bases = |m: u8| -> Vec<usize> { (0..4).filter(|&b| m & (8 >> b) != 0).collect() }; // Dna rows A,C,G,T
+    let translate = |x: usize, y: usize, z: usize| STANDARD.to_amino(&build::<Dna>(&[x, y, z])).to_char();
+    for a in 0..16usize {
+        for b in 0..16usize {
+            for c in 0..16usize {
+                let rows = [a, b, c];
+                let s = build::<Iupac>(&rows);
+                rep.case(|| format!("{}", s));
+                let got = match caught(|| STANDARD.try_to_amino(&s)) {
+                    Some(g) => g,
+                    None => { rep.expect(false, "C14 try_to_amino never panics on a 3-symbol codon", || format!("{}", s)); continue; }
+                };
+                for off in [1usize, 15] {
+                    with_offset::<Iupac, _>(&rows, off, &mut Rng::new(rng.next()), |sl| {
+                        rep.expect(STANDARD.try_to_amino(sl) == got, "C14 same answer whatever slice presents the codon", || format!("{} off={}", sl, off));
+                    });
+                }
+                if [a, b, c].iter().all(|&r| masks(r) != 0) {
+                    let mut aminos = std::collections::BTreeSet::new();
+                    for x in bases(masks(a)) { for y in bases(masks(b)) { for z in bases(masks(c)) { aminos.insert(translate(x, y, z)); } } }
+                    match &got {
+                        Ok(x) => rep.expect(aminos.len() == 1 && aminos.contains(&x.to_char()), "C14 translation returns X only when every concrete codon codes for X (soundness)", || format!("{} -> {} but concrete codons code for {:?}", s, x.to_char(), aminos)),
+                        Err(TranslationError::AmbiguousTranslation(c)) => rep.expect(aminos.len() > 1 && *c == s, "C14 ambiguity is reported only when the concrete codons disagree (completeness)", || format!("{} ambiguous but all concrete codons code for {:?}", s, aminos)),
+                        Err(e) => rep.expect(false, "C14 a 3-symbol codon is translated or reported ambiguous", || format!("{} -> {:?}", s, e)),
+                    }
+                }
+            }
+        }
+    }
+    for n in [0usize, 1, 2, 4, 5] {
+        let rows = rand_rows::<Iupac>(&mut rng, n);
+        let s = build::<Iupac>(&rows);
+        rep.case(|| format!("length {}", n));
+        rep.expect(matches!(STANDARD.try_to_amino(&s), Err(TranslationError::InvalidCodon(c)) if c == s), "C14 codons of any other length are reported invalid", || format!("{}", s));
+    }
+    // reverse translation: exact pattern or ambiguity
+    let codons_of = |letter: char| -> std::collections::BTreeSet<(usize, usize, usize)> {
+        let mut v = std::collections::BTreeSet::new();
+        for x in 0..4 { for y in 0..4 { for z in 0..4 { if translate(x, y, z) == letter { v.insert((x, y, z)); } } } }
+        v
+    };
+    for k in 0..<Amino as Oracle>::len() {
+        let am = <Amino as Oracle>::entry(k).sym;
+        let want = codons_of(am.to_char());
+        rep.case(|| format!("reverse {}", am.to_char()));
+        // is there a single gap-free pattern matching all and only `want`?
+        let mut exact: Vec<[usize; 3]> = vec![];
+        for a in 0..15usize { for b in 0..15usize { for c in 0..15usize {
+            let mut got = std::collections::BTreeSet::new();
+            for x in bases(masks(a)) { for y in bases(masks(b)) { for z in bases(masks(c)) { got.insert((x, y, z)); } } }
+            if got == want { exact.push([a, b, c]); }
+        } } }
+        match STANDARD.try_to_codon(am) {
+            Ok(p) => {
+                rep.expect(exact.len() == 1 && rows_of::<Iupac>(&p) == exact[0], "C14 reverse translation returns the codon that matches all and only the coding DNA codons", || format!("{} -> {} exact={:?}", am.to_char(), p, exact));
+                rep.expect(STANDARD.try_to_amino(&p) == Ok(am), "C14 the reverse-translated codon translates back", || format!("{} -> {}", am.to_char(), p));
+            }
+            Err(TranslationError::AmbiguousCodon(x)) => rep.expect(exact.is_empty() && x == am, "C14 reverse translation reports ambiguity only when no single codon is exact", || format!("{} exact={:?}", am.to_char(), exact)),
+            Err(e) => rep.expect(false, "C14 reverse translation returns a codon or reports ambiguity", || format!("{} -> {:?}", am.to_char(), e)),
+        }
+    }
+    rep
+}
+
 // ------------------------------------------------------------------------------------------ C15
 fn c15_codec<C: Oracle>(rep: &mut Report, rng: &mut Rng, rounds: usize) {
     use bio_seq::translation::{CodonTable, PartialTranslationTable, TranslationError};
@@ -1220,6 +1292,7 @@ pub fn run(prop: &str, tier: &str, seed: u64) -> Report {
         "C11" => c11(tier, seed),
         "C12" => c12(tier, seed),
         "C13" => c13(tier, seed),
+        "C14" => c14(tier, seed),
         "C15" => c15(tier, seed),
         "C19" => c19(tier, seed),
         "C20" => c20(tier, seed),
